@@ -14,6 +14,9 @@ use serde_json::{json, Value as J};
 
 pub fn tracegen(prop: &str, seed: u64, runs: usize) -> Vec<J> {
     let mut out = vec![];
+    if prop == "fixtures" {
+        return crate::digwl::fixture_runs(prop, seed);
+    }
     let mut top = StdRng::seed_from_u64(seed.wrapping_mul(0x9E37_79B9_7F4A_7C15) ^ prop.bytes().fold(0u64, |a, b| a.wrapping_mul(131).wrapping_add(b as u64)));
     for run in 1..=runs {
         let s: u64 = top.gen();
@@ -78,8 +81,10 @@ pub fn tracegen(prop: &str, seed: u64, runs: usize) -> Vec<J> {
                 }
                 v
             }
+            "dig" => crate::digwl::dig_loaded_run(prop, run, s),
             "C06" => binding_run(prop, run, s),
             "C11" => mismatch_run(prop, run, s),
+            "C15" => sched_run(prop, run, s),
             "C07" => width_run(prop, run, s),
             "C08" => expr_run(prop, run, s),
             "C10" => error_run(prop, run, s),
@@ -660,4 +665,163 @@ fn mismatch_run(prop: &str, run: usize, seed: u64) -> Vec<J> {
     let spec = policy_for(&test, &opt, seed, &mut g.rng, 8);
     let cfg = RunCfg { run, prop: prop.to_string(), own_write: g.rng.gen_bool(0.5), max_rows: 40, rng_seed: seed, after_none: 0, cfg_note: json!({"edits": n_edits}) };
     trace_run(&Prepared { test, printed, layout }, &cfg, make_policy(spec))
+}
+
+// ---------------------------------------------------------------------------------------------
+// C15: several iterators over one test, interleaved step by step, each with its own driver; re-iteration;
+// static iteration
+
+fn sched_run(prop: &str, run: usize, seed: u64) -> Vec<J> {
+    use crate::driver::*;
+    use digital_test_runner::errors::IterationError;
+    use digital_test_runner::verif;
+    let mut g = Gen::new(seed, Knobs { p_c: 0.08, p_x: 0.05, bidir: true, max_stmts: 10, max_virtuals: 1, allow_random: run % 3 == 0, p_device: if run % 2 == 0 { 0.0 } else { 0.3 }, ..Knobs::control_flow() });
+    if run % 2 == 0 {
+        g.k.max_virtuals = 0;
+    }
+    let plan = g.plan();
+    let mut prog = g.program(&plan);
+    if run % 2 == 0 {
+        // a static test: every name is assigned at top level before it is used, so nothing is read from the device
+        let mut names: Vec<String> = g.k.vars.clone();
+        for d in 0..=g.k.max_depth {
+            names.push(format!("w{d}"));
+        }
+        for (k, n) in names.into_iter().enumerate() {
+            prog.insert(k, Stmt::Let { name: n, e: Expr::Num(g.rng.gen_range(0..4)) });
+        }
+    }
+    let test = Test { header: plan.header.clone(), supplied: plan.supplied.clone(), prog };
+    let layout = choose_layout(Lay::Mixed, seed, &mut g.rng);
+    let printed = print_test(&test.header, &test.prog, &layout);
+    *crate::WATCH_TEXT.lock().unwrap() = printed.text.clone();
+    let mut out = vec![];
+    let loaded = load(&printed.text, &test.supplied);
+    let (tc, load_kind, load_res) = match loaded {
+        Loaded::Ok(tc) => (Some(tc), "ok", "ok".to_string()),
+        Loaded::ParseErr(e) => (None, "parse", e),
+        Loaded::BindErr(e) => (None, "bind", e),
+        Loaded::Panic(p) => (None, "panic", p),
+    };
+    let observed = tc.as_ref().map(observed_signals).unwrap_or_default();
+    out.push(json!({"ev":"begin","run":run,"prop":prop,"load":load_kind,"load_msg":load_res,"test":test_to_spec(&test, &printed, &observed),
+        "own_write":true,"cfg":{"sched":true},"text":printed.text,"rng_seed":seed.to_string()}));
+    let Some(tc) = tc else {
+        out.push(json!({"ev":"end","run":run}));
+        return out;
+    };
+    let table = driver_table(&test);
+    let opt = Opt { layouts: LayoutMode::Subset, mode: ValMode::Small, ..Opt::default() };
+    // four drivers with different answers; two or three iterators run interleaved, the rest afterwards (re-iteration)
+    let mut drivers: Vec<DrvW> = vec![];
+    let mut logs = vec![];
+    for k in 0..4u64 {
+        let spec = policy_for(&test, &opt, seed.wrapping_add(k * 101), &mut g.rng, 8);
+        let (core, log) = Core::new(table.clone(), make_policy(spec));
+        drivers.push(DrvW(core));
+        logs.push(log);
+    }
+    let n_par = g.rng.gen_range(2..4);
+    let take = |log: &std::rc::Rc<std::cell::RefCell<Log>>| {
+        let mut l = log.borrow_mut();
+        let calls: Vec<J> = l.calls.drain(..).map(|c| call_to_spec(&c)).collect();
+        let ans = l.answers.drain(..).last();
+        (calls, answer_to_spec(ans.as_ref(), &table))
+    };
+    let mut its: Vec<Option<digital_test_runner::DataRowIterator<'_, '_, DrvW>>> = vec![];
+    for (k, d) in drivers.iter_mut().enumerate() {
+        if k >= n_par {
+            its.push(None);
+            // created later
+            let _ = d;
+            continue;
+        }
+        verif::set_seed_override(Some(seed.wrapping_add(k as u64)));
+        let _ = verif::take_rng_log();
+        let r = guarded(|| tc.try_iter(d));
+        let (calls, answer) = take(&logs[k]);
+        let (res, it) = match r {
+            Err(p) => (json!({"k":"panic","id":0,"msg":p}), None),
+            Ok(Err(IterationError::Driver(DrvErr(id)))) => (json!({"k":"driver","id":id}), None),
+            Ok(Err(IterationError::Runtime(_))) => (json!({"k":"runtime","id":0}), None),
+            Ok(Ok(it)) => (json!({"k":"ok","id":0}), Some(it)),
+        };
+        out.push(json!({"ev":"try_iter","run":run,"it":k + 1,"calls":calls,"answer":answer,"res":res}));
+        its.push(it);
+    }
+    // the interleaving
+    let mut budget = 60;
+    while budget > 0 && its.iter().any(|i| i.is_some()) {
+        budget -= 1;
+        let live: Vec<usize> = its.iter().enumerate().filter(|(_, i)| i.is_some()).map(|(k, _)| k).collect();
+        let k = live[g.rng.gen_range(0..live.len())];
+        let it = its[k].as_mut().unwrap();
+        let item = guarded(|| it.next());
+        let rng = rng_to_spec();
+        let (calls, answer) = take(&logs[k]);
+        let mut stop = false;
+        let item_j = match &item {
+            Err(p) => {
+                stop = true;
+                json!({"k":"panic","msg":p})
+            }
+            Ok(None) => {
+                stop = true;
+                json!({"k":"none"})
+            }
+            Ok(Some(Err(IterationError::Driver(DrvErr(id))))) => {
+                stop = true;
+                json!({"k":"err","class":"driver","id":id})
+            }
+            Ok(Some(Err(IterationError::Runtime(_)))) => {
+                stop = true;
+                json!({"k":"err","class":"runtime","id":0})
+            }
+            Ok(Some(Ok(row))) => row_to_spec(row),
+        };
+        let vars_j: Vec<J> = if item.is_ok() {
+            let mut v: Vec<(String, i64)> = guarded(|| it.vars()).unwrap_or_default().into_iter().collect();
+            v.sort();
+            v.into_iter().map(|(n, v)| json!({"n": n, "v": limbs(v)})).collect()
+        } else {
+            vec![]
+        };
+        out.push(json!({"ev":"next","run":run,"it":k + 1,"rng":rng,"calls":calls,"answer":answer,"item":item_j,"vars":vars_j}));
+        if stop {
+            its[k] = None;
+        }
+    }
+    drop(its);
+    // static iteration: succeeds exactly when the program reads no outputs, and then agrees with every dynamic run
+    verif::set_seed_override(Some(seed.wrapping_add(77)));
+    let _ = verif::take_rng_log();
+    match guarded(|| tc.try_iter_static()) {
+        Err(p) => out.push(json!({"ev":"try_iter_static","run":run,"it":9,"res":{"k":"panic","msg":p}})),
+        Ok(Err(_)) => out.push(json!({"ev":"try_iter_static","run":run,"it":9,"res":{"k":"static_err"}})),
+        Ok(Ok(mut sit)) => {
+            out.push(json!({"ev":"try_iter_static","run":run,"it":9,"res":{"k":"ok"}}));
+            for _ in 0..40 {
+                let item = guarded(|| sit.next());
+                let rng = rng_to_spec();
+                let (j, stop) = match item {
+                    Err(p) => (json!({"k":"panic","msg":p}), true),
+                    Ok(None) => (json!({"k":"none"}), true),
+                    Ok(Some(Err(_))) => (json!({"k":"err"}), true),
+                    Ok(Some(Ok(row))) => (
+                        json!({"k":"row","line":row.line,
+                            "inputs":row.inputs.iter().map(|i| json!({"s": i.signal.name, "v": ival(i.value).to_spec(), "ch": i.changed})).collect::<Vec<_>>(),
+                            "expected":row.expected.iter().map(|e| json!({"s": e.signal.name, "v": eval_(e.value).to_spec()})).collect::<Vec<_>>()}),
+                        false,
+                    ),
+                };
+                out.push(json!({"ev":"next_static","run":run,"it":9,"rng":rng,"item":j}));
+                if stop {
+                    break;
+                }
+            }
+        }
+    }
+    verif::set_seed_override(None);
+    out.push(json!({"ev":"end","run":run}));
+    out
 }
